@@ -184,6 +184,59 @@ def translate(repo, rel, fname, consts):
     return out
 
 # ---------------------------------------------------------------------------------------------------------------
+# SKey::as_equal_slice -> WowSrp.MiniScan.Prog
+
+def scan_nexpr(t, svar):
+    t = t.strip()
+    while t.startswith("(") and t.endswith(")"):
+        t = t[1:-1].strip()
+    if t == "lead": return "NExpr.lead"
+    if re.fullmatch(re.escape(svar) + r"\s*\.\s*len\s*\(\s*\)", t): return "NExpr.len"
+    if re.fullmatch(r"\d+(?:usize)?", t): return "NExpr.lit %d" % gc.parse_int(t)
+    m = re.fullmatch(r"(.+?)\s*%\s*(.+)", t)
+    if m: return "NExpr.mod (%s) (%s)" % (scan_nexpr(m.group(1), svar), scan_nexpr(m.group(2), svar))
+    raise Unsupported("expression " + t)
+
+def scan_cond(t, svar):
+    t = t.strip()
+    if "&&" in t:
+        a, b = t.split("&&", 1)
+        return "Cond.and (%s) (%s)" % (scan_cond(a, svar), scan_cond(b, svar))
+    m = re.fullmatch(re.escape(svar) + r"\s*\[(.+)\]\s*==\s*(\d+)", t)
+    if m: return "Cond.byteEq (%s) %d" % (scan_nexpr(m.group(1), svar), int(m.group(2)))
+    m = re.fullmatch(r"(.+?)\s*!=\s*(.+)", t)
+    if m: return "Cond.ne (%s) (%s)" % (scan_nexpr(m.group(1), svar), scan_nexpr(m.group(2), svar))
+    m = re.fullmatch(r"(.+?)\s*<\s*(.+)", t)
+    if m: return "Cond.lt (%s) (%s)" % (scan_nexpr(m.group(1), svar), scan_nexpr(m.group(2), svar))
+    raise Unsupported("condition " + t)
+
+def strip_rule(repo):
+    rel = "src/key.rs"
+    bad = lambda why: "⟨0, [SStmt.unsupported %s]⟩" % lean_str(why)
+    try:
+        body = gc.fn_body(gc.load(repo, rel), "as_equal_slice", rel)
+    except gc.Missing as ex:
+        return bad(str(ex))
+    t = re.sub(r"\s+", " ", body.strip()[1:-1]).strip()
+    m = re.fullmatch(r"let mut (\w+) = &self\.key\[\.\.\]; let mut lead = (\d+); (.*) \1 = &\1\[lead\.\.\]; \1", t)
+    if not m:
+        return bad("frame `let mut s = &self.key[..]; let mut lead = N; ..; s = &s[lead..]; s` not found: " + t[:200])
+    svar, init, mid = m.group(1), int(m.group(2)), m.group(3)
+    stmts = []
+    pos = 0
+    pat = re.compile(r"\s*(while|if) (.+?) \{ lead \+= (\d+); \}")
+    while pos < len(mid):
+        mm = pat.match(mid, pos)
+        if not mm:
+            stmts.append("SStmt.unsupported %s" % lean_str(mid[pos:pos + 160])); break
+        try:
+            stmts.append("SStmt.%s (%s) %d" % ("whileInc" if mm.group(1) == "while" else "ifInc", scan_cond(mm.group(2), svar), int(mm.group(3))))
+        except Unsupported as ex:
+            stmts.append("SStmt.unsupported %s" % lean_str("%s  [%s]" % (mm.group(0).strip(), ex)))
+        pos = mm.end()
+    return "⟨%d, [%s]⟩" % (init, ", ".join(stmts))
+
+# ---------------------------------------------------------------------------------------------------------------
 # RC4 pseudo-random generation step -> WowSrp.MiniRust.RStmt terms
 
 SELF = ("name", "self")
@@ -439,10 +492,11 @@ def main():
                                    ("wrathSmallHeaderParse", "src/wrath_header/mod.rs", r"impl\s+ServerHeader\s*\{", "from_small_array", wconsts),
                                    ("wrathLargeHeaderParse", "src/wrath_header/mod.rs", r"impl\s+ServerHeader\s*\{", "from_large_array", wconsts)):
         B.append("/-- `%s` in %s -/\ndef %s : ParseSpec := %s" % (fn, rel, name, parser(repo, rel, hdr, fn, cs)))
+    B.append("/-- `SKey::as_equal_slice` in src/key.rs -/\ndef asEqualSlice : Prog := %s" % strip_rule(repo))
     rs, rr = rc4_prga(repo)
     B.append("/-- `Rc4::pseudo_random_generation` in src/rc4.rs: statements and the index of the returned table entry -/\ndef rc4PrgaBody : List RStmt := %s\ndef rc4PrgaResult : RExpr := %s" % (rs, rr))
-    text = ("/- GENERATED by tools/gen_code.py from the Rust sources on every run. Do not edit. -/\nimport WowSrp.Model.MiniRust\nimport WowSrp.Model.MiniLayout\nimport WowSrp.Model.MiniRc4\n"
-            "namespace WowSrp.Gen.Code\nopen WowSrp.MiniRust WowSrp.MiniLayout WowSrp.MiniRc4\n\n" + "\n\n".join(L + B) + "\n\nend WowSrp.Gen.Code\n")
+    text = ("/- GENERATED by tools/gen_code.py from the Rust sources on every run. Do not edit. -/\nimport WowSrp.Model.MiniRust\nimport WowSrp.Model.MiniLayout\nimport WowSrp.Model.MiniRc4\nimport WowSrp.Model.MiniScan\n"
+            "namespace WowSrp.Gen.Code\nopen WowSrp.MiniRust WowSrp.MiniLayout WowSrp.MiniRc4 WowSrp.MiniScan\n\n" + "\n\n".join(L + B) + "\n\nend WowSrp.Gen.Code\n")
     old = open(outp).read() if os.path.exists(outp) else None
     if old != text:
         os.makedirs(os.path.dirname(outp), exist_ok=True)
